@@ -223,7 +223,7 @@ func Run(tier string) int {
 	res.Sample(map[string]any{"history": "{liquidate} {convertERC20} + 2 empty blocks", "variant": "map3+clock+noise+second"})
 	return engine.Finish(res, engine.Meta{
 		Property: Prop, Tier: tier, Level: "model_checking", Start: start, Alphabet: names,
-		Rule: "every history = single template, ordered pair in consecutive blocks, ordered pair in one block (thorough: pairs with a 30-day gap, all triples) over a 23-template alphabet, plus 4 governance flows alone and followed by every template once in effect and 7 life-cycle chains (incl. two day boundaries and sub-millisecond block times), executed with real InitChain/BeginBlock/DeliverTx/EndBlock/Commit; the recorded concrete blocks are replayed on 7 (thorough 23; triples 7) independently constructed replicas, each under a forced map-iteration seed combined with a +400d wall clock, interleaved CheckTx/queries (incl. eth_call/estimateGas executing the EVM at the latest and at old heights) a second application object, a different process time zone (UTC-8 / UTC+9), different node-local app.toml options, and (a quarter of the replicas) a stop after the first block with the node rebuilt from its database; every DeliverTx result (code, data, gas, events, log), EndBlock (validator and consensus-param updates, events), BeginBlock events and Commit app hash compared; states = distinct (call, response digest) pairs, non-trivial = history with an executed transaction",
+		Rule: "every history = single template, ordered pair in consecutive blocks, ordered pair in one block (thorough: pairs with a 30-day gap, all triples) over a 23-template alphabet, plus 4 governance flows alone and followed by every template once in effect and 9 life-cycle chains (incl. two day boundaries, sub-millisecond block times, the day epoch behind the clock, a fee paid out of staking rewards), executed with real InitChain/BeginBlock/DeliverTx/EndBlock/Commit; the recorded concrete blocks are replayed on 7 (thorough 23; triples 7) independently constructed replicas, each under a forced map-iteration seed combined with a +400d wall clock, every transaction simulated and CheckTx'd before delivery, interleaved queries (incl. eth_call/estimateGas executing the EVM at the latest and at old heights) a second application object, a different process time zone (UTC-8 / UTC+9), different node-local app.toml options, and (a quarter of the replicas) a stop after the first block with the node rebuilt from its database; every DeliverTx result (code, data, gas, events, log), EndBlock (validator and consensus-param updates, events), BeginBlock events and Commit app hash compared; states = distinct (call, response digest) pairs, non-trivial = history with an executed transaction",
 		Assumptions: []string{
 			"one forced random word for all maps at a time: seeds 0..7 (thorough 0..23) realise every start bucket/offset for maps of <= 8 (<= 16) entries",
 			"validator sets of 2; consensus engine not involved (ABCI level)",
